@@ -17,53 +17,6 @@ instruction, it simulates `sem c e` on the full machine (`sim2_visit`).
 namespace Fancy
 
 mutual
-/-- no conditional anywhere inside: the code is balanced on the auxiliary stack -/
-def condFree : Expr → Bool
-  | .cond _ _ _ => false
-  | .concat es => condFreeAll es
-  | .alt es => condFreeAll es
-  | .group _ e => condFree e
-  | .look e _ => condFree e
-  | .repeat e _ _ _ => condFree e
-  | .atomic e => condFree e
-  | _ => true
-def condFreeAll : List Expr → Bool
-  | [] => true
-  | e :: es => condFree e && condFreeAll es
-end
-
-def isAlt : Expr → Bool
-  | .alt _ => true
-  | _ => false
-
-mutual
-def s2ok : Expr → Bool
-  | .empty => true
-  | .any _ => true
-  | .assertion _ => true
-  | .literal v ci => !ci && v.length == 1
-  | .concat es => s2okAll es
-  | .alt es => !es.isEmpty && s2okAll es
-  | .group _ e => s2ok e
-  | .repeat e _ hi _ => s2ok e && (hi != none || decide (0 < minSize e))
-  | .look e .ahead => s2ok e && condFree e
-  | .look e .aheadNeg => s2ok e
-  | .look e .behind => s2ok e && condFree e && !isAlt e && noBareEndZ e
-  | .look e .behindNeg => s2ok e && !isAlt e && noBareEndZ e
-  | .backref _ => true
-  | .atomic e => s2ok e && condFree e
-  | .keepOut => true
-  | .contPrev => true
-  | .backrefExists _ => true
-  | .cond c y n => s2ok c && condFree c && s2ok y && s2ok n
-  | .delegate _ _ _ => false
-  | .subroutine _ => false
-def s2okAll : List Expr → Bool
-  | [] => true
-  | e :: es => s2ok e && s2okAll es
-end
-
-mutual
 theorem s2ok_wellShaped : ∀ (e : Expr), s2ok e = true → wellShaped e = true
   | .empty, _ | .any _, _ | .assertion _, _ | .backref _, _ | .keepOut, _ | .contPrev, _ | .backrefExists _, _ => by
     simp [wellShaped]
